@@ -10,6 +10,11 @@ VALS = ['', 'v', 'w']
 SSTATES = ['STATE_UNSPECIFIED', 'ACTIVE', 'INACTIVE', 'COMPLETED']
 
 
+def alias_id(r, t):
+  """A non-canonical decimal string naming trial t (Python's int() accepts it)."""
+  return r.choice(['0%d', '+%d', ' %d', '%d ', '00%d', '\t%d\n']) % t
+
+
 class Gen:
   """Keeps a light shadow of what exists so that ids are mostly live (70 %), sometimes
   deleted (20 %) or never existing (10 %).  The shadow only steers the distribution."""
@@ -175,6 +180,11 @@ class Gen:
       return dict(base, op=op, id=tid, es=es)
     if op == 'updateMetadata':
       us = [{'t': None if r.random() < 0.4 else self.pick_id(key), 'kv': self.kv()} for _ in range(r.randrange(1, 4))]
+      for u in us:
+        # a trial may be named by any decimal string int() maps to its id ('02', '+2', ' 2'): the model sees
+        # the id, the real request carries the alias
+        if u['t'] is not None and r.random() < 0.15:
+          u['talias'] = alias_id(r, u['t'])
       return dict(base, op=op, us=us)
     raise AssertionError(op)
 
